@@ -131,6 +131,11 @@ func newSpan(min *Version, minOpen bool, max *Version, maxOpen bool) (span, erro
 		min.setTail(wildcard, 0)
 	}
 	max.setTail(wildcard, infinity)
+	if min.sys == NuGet && len(min.num) == 4 && min.getNum(3) == 0 {
+		// NuGet ignores a final 0 if it is the fourth number (as Parse
+		// does), so that 1.2.3.* starts at 1.2.3 and prints that way.
+		min.num = min.num[:3]
+	}
 	min.build = ""
 	max.build = ""
 	switch {
